@@ -7,13 +7,30 @@ Local Open Scope N_scope.
 Open Scope list_scope.
 
 Definition plain_for (q : N) (x : N) : bool := negb (x =? q) && negb (x =? 92).
+(* the body of a string literal as the grammar reads it: `( '\\' [\\q] / [^q] )*` — the quote only after a backslash, a
+   backslash before the closing quote would escape it *)
+Fixpoint sbody_ok (q : N) (body : list N) : bool :=
+  match body with
+  | [] => true
+  | x :: r => negb (x =? q) &&
+              (if x =? 92 then match r with
+                               | [] => false
+                               | y :: r' => if (y =? 92) || (y =? q) then sbody_ok q r' else sbody_ok q r
+                               end
+               else sbody_ok q r)
+  end.
+Lemma plain_sbody q body : forallb (plain_for q) body = true -> sbody_ok q body = true.
+Proof.
+  induction body as [|x r IH]; [reflexivity|]. cbn [forallb sbody_ok]. intros H. apply andb_true_iff in H. destruct H as [H1 H2].
+  unfold plain_for in H1. apply andb_true_iff in H1. destruct H1 as [Hq H92]. rewrite Hq. apply negb_true_iff in H92. rewrite H92. apply IH. exact H2.
+Qed.
 Definition litv_ok (l : litv) : bool :=
   match l with
-  | LStr q body => ((q =? 39) || (q =? 34)) && forallb (plain_for q) body
+  | LStr q body => ((q =? 39) || (q =? 34)) && sbody_ok q body
   | LBool _ sp | LNull sp => Nat.ltb sp 3
   end.
 Definition litv_value (l : litv) : value :=
-  match l with LStr _ body => VStr (text_of body) | LBool b _ => VBool b | LNull _ => VNull end.
+  match l with LStr _ body => VStr (text_of (unescape_cps body)) | LBool b _ => VBool b | LNull _ => VNull end.
 Definition litv_tokens (p : nat) (l : litv) : list token :=
   match l with
   | LStr q body => [TText (p + 1) (p + 1 + List.length body); TAct (if q =? 39 then 43%nat else 44%nat)]
@@ -45,21 +62,52 @@ Proof. unfold in_ranges. cbn. rewrite N.leb_refl. reflexivity. Qed.
 Lemma in_ranges_other x q : x <> q -> in_ranges x [(q, q)] = false.
 Proof. intros H. unfold in_ranges. cbn. destruct (q <=? x) eqn:A; destruct (x <=? q) eqn:B; try reflexivity. apply N.leb_le in A. apply N.leb_le in B. lia. Qed.
 (* the body of a string literal *)
-Lemma ev_str_star q body rest pos : forallb (plain_for q) body = true -> q <> 92 ->
+Lemma ev_str_star q body rest pos : sbody_ok q body = true -> q <> 92 ->
   evG (PStar (PAlt (PSeq (PLit [92]) (PCls false [(92, 92); (q, q)])) (PCls true [(q, q)]))) (body ++ q :: rest) pos
       (POk (q :: rest) (pos + List.length body) []).
 Proof.
-  intros Hb Hq. revert pos. induction body as [|x r IH]; intros pos.
-  - cbn [app List.length]. eapply ev_conv.
+  intros Hb Hq.
+  assert (Hgen : forall n body pos, (List.length body <= n)%nat -> sbody_ok q body = true ->
+            evG (PStar (PAlt (PSeq (PLit [92]) (PCls false [(92, 92); (q, q)])) (PCls true [(q, q)]))) (body ++ q :: rest) pos
+                (POk (q :: rest) (pos + List.length body) [])); [|apply (Hgen (List.length body) body pos (le_n _) Hb)].
+  clear body pos Hb. induction n as [|n IH]; intros body pos Hn Hb.
+  - destruct body; [|cbn [List.length] in Hn; lia]. cbn [app List.length]. eapply ev_conv.
     + apply ev_star_stop. apply ev_alt_r; [apply ev_seq_fail; apply (ev_lit_fail G [92]); apply strip1_no; exact Hq|].
       apply ev_cls_fail. rewrite in_ranges_self. reflexivity.
     + f_equal. lia.
-  - cbn [forallb] in Hb. apply andb_true_iff in Hb. destruct Hb as [H1 H2]. unfold plain_for in H1. apply andb_true_iff in H1. destruct H1 as [Hx1 Hx2].
-    apply negb_true_iff in Hx1. apply negb_true_iff in Hx2. apply N.eqb_neq in Hx1. apply N.eqb_neq in Hx2. cbn [app].
-    assert (E1 : evG (PAlt (PSeq (PLit [92]) (PCls false [(92, 92); (q, q)])) (PCls true [(q, q)])) (x :: r ++ q :: rest) pos (POk (r ++ q :: rest) (S pos) [])).
-    { apply ev_alt_r; [apply ev_seq_fail; apply (ev_lit_fail G [92]); apply strip1_no; exact Hx2|]. apply ev_cls_ok. rewrite (in_ranges_other x q Hx1). reflexivity. }
-    pose proof (ev_star_step G _ _ _ _ _ _ _ _ _ E1 ltac:(lia) (IH H2 (S pos))) as E2.
-    eapply ev_conv; [exact E2|]. f_equal. cbn [List.length]. lia.
+  - destruct body as [|x r].
+    + cbn [app List.length]. eapply ev_conv.
+      * apply ev_star_stop. apply ev_alt_r; [apply ev_seq_fail; apply (ev_lit_fail G [92]); apply strip1_no; exact Hq|].
+        apply ev_cls_fail. rewrite in_ranges_self. reflexivity.
+      * f_equal. lia.
+    + cbn [sbody_ok] in Hb. apply andb_true_iff in Hb. destruct Hb as [Hxq Hb]. apply negb_true_iff in Hxq. apply N.eqb_neq in Hxq.
+      cbn [List.length] in Hn. cbn [app].
+      destruct (x =? 92) eqn:E92.
+      * apply N.eqb_eq in E92. subst x. destruct r as [|y r']; [discriminate Hb|].
+        destruct ((y =? 92) || (y =? q)) eqn:Ey.
+        -- (* an escaped backslash or quote: two characters at once *)
+           assert (E1 : evG (PAlt (PSeq (PLit [92]) (PCls false [(92, 92); (q, q)])) (PCls true [(q, q)])) (92 :: (y :: r') ++ q :: rest) pos
+                            (POk (r' ++ q :: rest) (S (pos + 1)) [])).
+           { apply ev_alt_l. eapply ev_seq_ok; [apply (ev_lit_ok G [92]); apply strip1_ok| |reflexivity]. cbn [app]. apply ev_cls_ok.
+             rewrite Bool.xorb_false_l. rewrite in_ranges_pt, in_ranges_pt. rewrite Bool.orb_assoc, Ey. reflexivity. }
+           cbn [List.length] in Hn.
+           pose proof (ev_star_step G _ _ _ _ _ _ _ _ _ E1 ltac:(lia) (IH r' (S (pos + 1)) ltac:(lia) Hb)) as E2.
+           eapply ev_conv; [exact E2|]. f_equal. cbn [List.length]. lia.
+        -- (* a backslash before any other character is a character of its own *)
+           apply orb_false_iff in Ey. destruct Ey as [Ey1 Ey2].
+           assert (E1 : evG (PAlt (PSeq (PLit [92]) (PCls false [(92, 92); (q, q)])) (PCls true [(q, q)])) (92 :: (y :: r') ++ q :: rest) pos
+                            (POk ((y :: r') ++ q :: rest) (S pos) [])).
+           { apply ev_alt_r.
+             - eapply ev_seq_fail2; [apply (ev_lit_ok G [92]); apply strip1_ok|]. cbn [app]. apply ev_cls_fail.
+               rewrite Bool.xorb_false_l. rewrite in_ranges_pt, in_ranges_pt. rewrite Ey1, Ey2. reflexivity.
+             - apply ev_cls_ok. rewrite (in_ranges_other 92 q Hxq). reflexivity. }
+           pose proof (ev_star_step G _ _ _ _ _ _ _ _ _ E1 ltac:(lia) (IH (y :: r') (S pos) ltac:(lia) Hb)) as E2.
+           eapply ev_conv; [exact E2|]. f_equal. cbn [List.length]. lia.
+      * apply N.eqb_neq in E92.
+        assert (E1 : evG (PAlt (PSeq (PLit [92]) (PCls false [(92, 92); (q, q)])) (PCls true [(q, q)])) (x :: r ++ q :: rest) pos (POk (r ++ q :: rest) (S pos) [])).
+        { apply ev_alt_r; [apply ev_seq_fail; apply (ev_lit_fail G [92]); apply strip1_no; exact E92|]. apply ev_cls_ok. rewrite (in_ranges_other x q Hxq). reflexivity. }
+        pose proof (ev_star_step G _ _ _ _ _ _ _ _ _ E1 ltac:(lia) (IH r (S pos) ltac:(lia) Hb)) as E2.
+        eapply ev_conv; [exact E2|]. f_equal. cbn [List.length]. lia.
 Qed.
 
 Lemma ev_rule47_str q body c t pos : litv_ok (LStr q body) = true ->
